@@ -1,29 +1,12 @@
-"""Per-property configuration for ./check (kept apart from the plumbing)."""
+"""Per-property configuration for ./check: one module per property under tools/propcfg/ (CFG dict)."""
+import importlib, os, pkgutil, sys
+sys.path.insert(0, os.path.dirname(os.path.abspath(__file__)))
+import propcfg
 
-COMMON_ASSUME = [
-    "the hand-written Lean model mirrors the Rust code to the extent the correspondence run exercised it (numbers in coverage)",
-]
+HOOK_COMMITS = []   # /repo commits that add cfg(rpm_verif)-guarded hooks
+NOT_YET = {}        # property id -> reason it is not claimed (MANIFEST.not_applicable)
 
-HOOK_COMMITS = []
-NOT_YET = {}
-
-PROPS = {
-    "C13": {
-        "props_module": "RpmVerif.Props.C13",
-        "required_theorems": ["RpmVerif.C13.rust_eq_c", "RpmVerif.C13.rustCmp_swap", "RpmVerif.C13.rustCmp_trans",
-                              "RpmVerif.C13.evr_cmp_spec", "RpmVerif.C13.evr_eq_cmp_eq", "RpmVerif.C13.nevra_eq_cmp_eq",
-                              "RpmVerif.C13.vectors_ok"],
-        "trivial_branches": ["identical"],
-        "rule": "exhaustive ordered pairs of all strings up to length 3 over the alphabet {0,1,a,B,'.','~','^','é'} (quick) / "
-                "{0,1,9,a,B,'.','-','_','~','^','é'} (thorough), plus seeded long strings biased to shared prefixes, and EVR / NEVRA / "
-                "rpm_evr_compare products; a case is non-trivial when the two strings are not identical; distinct = distinct request lines",
-        "exhaustive": True,
-        "shards": {"quick": 4, "thorough": 16},
-        "trusted_base": ["transcription of rpm's rpmvercmp.c as `cVercmp` (checked only against the test vectors scraped from src/version.rs)"],
-        "assumptions": COMMON_ASSUME + ["rpmvercmp.c transcription is faithful (no rpm binary in the sandbox)"],
-        "level_text": "Theorems for all strings of any length: compare_version_string = rpmvercmp (rust_eq_c), reflexive / swap-antisymmetric / transitive, "
-                      "Evr and Nevra orders are the lexicographic products (epoch '' = '0'), equal values compare Equal. The model is tied to the code by an exhaustive "
-                      "small-alphabet differential run plus seeded long strings.",
-        "level_note": "Trusted: Lean kernel; my transcription of rpmvercmp.c (checked against the 106 vectors scraped from src/version.rs); fidelity of the hand model as exercised by the correspondence.",
-    },
-}
+PROPS = {}
+for m in pkgutil.iter_modules(propcfg.__path__):
+    if m.name.startswith("C"):
+        PROPS[m.name] = importlib.import_module("propcfg." + m.name).CFG
